@@ -27,7 +27,9 @@ VERDICT = 'Case_C19.verdict'
 PARALLEL = 16
 CHUNK = 300
 RULE = ('case = (sep, parse_keys, parser: default | harness callable, items as key<sep>value strings / pairs / '
-        'mapping / object with .items(), passed as list|tuple|generator|dict|mappingproxy) run against '
+        'mapping / object with .items(), passed as list|tuple|generator|dict|mappingproxy|dict items view|dict '
+        'keys view (string items)|Mapping subclass and dict subclass whose .items() is overridden over decoy '
+        'content) run against '
         'aiuti.parsing.parse_to_dict; keys and values come from a grammar of literal and non-literal fragments '
         '(ints, floats, quoted strings, tuples, lists, dicts, sets, None/True/False, bare words, calls / attribute '
         'access / operators incl. tripwire.hit() and __import__, text containing the separator, whitespace, empty '
@@ -47,11 +49,11 @@ ASSUMPTIONS = ['ast.literal_eval (or the custom callable) is an oracle: str -> v
                'input objects are exact str or non-str objects (no str subclasses); pairs have exactly two elements',
                'custom parsers are pure functions of their argument']
 TRUSTED = ['harness/props/C19.py driver (canonicalisation of values to (value id, equality class, hashable)), '
-           'harness/c19_translate.py (fail-closed ast translator, ~200 lines), coq/theories/Case_C19.v (agree/ok)',
+           'harness/c19_translate.py (fail-closed ast translator, ~330 lines), coq/theories/Case_C19.v (agree/ok)',
            'modelled, not verified: str.split(sep, 1), dict(), map laziness, ast.literal_eval (oracle)']
 ALLOWED_AXIOMS = []
 CLEAN_FOR_THOROUGH = ['theories/Parse.vo', 'theories/ParseInv.vo', 'theories/ParseSrc.vo', 'theories/Case_C19.vo',
-                      'theories/ParseMon.vo', 'gen/T_ParseDefaults.vo']
+                      'theories/ParseMon.vo', 'theories/ParseSound.vo', 'gen/T_ParseDefaults.vo']
 
 MARK = chr(4999)        # logged when a harness parser receives a non-str argument
 
@@ -119,6 +121,34 @@ class ItemsObj:
 
     def items(self):
         return list(self._pairs)
+
+
+def make_mapsub(pairs):
+    """a collections.abc.Mapping whose iteration / indexing describe OTHER content than its
+    overridden .items(): parse_to_dict must go through .items() (parsing.py:86-89)"""
+    import collections.abc
+
+    class MapSub(collections.abc.Mapping):
+        def __iter__(self):
+            return iter(['decoy=1', 'zz'])
+
+        def __len__(self):
+            return 2
+
+        def __getitem__(self, k):
+            return 'decoy'
+
+        def items(self):
+            return list(pairs)
+    return MapSub()
+
+
+def make_dictsub(pairs):
+    """a dict subclass holding decoy content whose .items() is overridden"""
+    class DictSub(dict):
+        def items(self):
+            return iter(list(pairs))
+    return DictSub({'decoy': '1', 'zz': '2'})
 
 
 RAW_NAMES = ['i1', 'f1', 'bT', 'i0', 'i2', 'none', 'tup', 'tupf', 'lst', 'b1', 'bl', 'obj0', 'obj1', 'obj2',
@@ -253,9 +283,13 @@ def run_impl(case):
             items_enc.append(['P', U.enc(kv[0]), U.enc(kv[1])])
     shape = case['shape']
     allpairs = all(it[0] == 'P' for it in case['items'])
-    if shape in ('dict', 'proxy', 'itemsobj') and not allpairs:
+    if shape in ('dict', 'proxy', 'view', 'itemsobj', 'mapsub', 'dictsub') and not allpairs:
         shape = 'list'
-    if shape in ('dict', 'proxy'):
+    if shape == 'keys':
+        # the keys view of a dict whose keys are the 'key<sep>value' strings (needs distinct strings only)
+        if any(it[0] != 'S' for it in case['items']) or len(set(items_py)) != len(items_py):
+            shape = 'tuple'
+    if shape in ('dict', 'proxy', 'view'):
         d = {}
         try:
             for k, v in items_py:
@@ -274,6 +308,14 @@ def run_impl(case):
         arg = d
     elif shape == 'proxy':
         arg = types.MappingProxyType(d)
+    elif shape == 'view':
+        arg = d.items()             # a dict view has no .items(): it is iterated as pairs
+    elif shape == 'keys':
+        arg = dict.fromkeys(items_py).keys()
+    elif shape == 'mapsub':
+        arg = make_mapsub(items_py)
+    elif shape == 'dictsub':
+        arg = make_dictsub(items_py)
     else:
         arg = ItemsObj(items_py)
     # ---- oracle table: the parser the property says is in force --------------
@@ -410,6 +452,7 @@ FRAGS = ['1', '-2', '1.0', '1e3', '"b"', "'a'", 'a', 'abc', 'True', 'None', '(1,
 SMALL = ['1', '1.0', '"b"', 'a', 'a=b', 'tripwire.hit()', '']
 MEDIUM = SMALL + ['True', '[1, 2]', ':']
 SEPS = ['=', ':', '==', '=:']
+MAP_SHAPES = ['dict', 'view', 'mapsub', 'proxy', 'dictsub', 'itemsobj']
 
 
 def S(text):
@@ -473,6 +516,16 @@ def corpus():
         mk([S('a=1'), S('bb=[1, "x"]'), S('"k"=null')], parser='json'),
         mk([S('a=1'), S('ab=cd'), S('abc=')], parser='hashy'), mk([S('a=b')], parser='upper', pk=False),
         mk([P(r_('i1'), r_('b1')), P(s_('k'), r_('none'))], parser='hashy'),
+        # separators that are prefixes of each other
+        mk([S('a==b')], sep='='), mk([S('a=b')], sep='=='), mk([S('a===b')], sep='=='), mk([S('a=:=b')], sep='=:'),
+        mk([S('a=:=b')], sep='='), mk([S('a:==b')], sep='=:'), mk([S('k=v'), S('k==v'), S('k=:v')], sep='=', pk=False),
+        # dict views, Mapping / dict subclasses whose .items() is overridden (the decoy content must not show)
+        mk([P(s_('a'), s_('1')), P(s_('2'), s_('"b"'))], shape='view'),
+        mk([S('a=1'), S('2="b"')], shape='keys'),
+        mk([P(s_('a'), s_('1')), P(s_('2'), s_('"b"'))], shape='mapsub'),
+        mk([P(s_('a'), s_('1')), P(s_('a'), s_('2'))], shape='mapsub', pk=False),
+        mk([P(s_('a'), s_('1')), P(r_('unh'), s_('"b"'))], shape='dictsub'),
+        mk([], shape='mapsub'), mk([], shape='dictsub'),
     ]
     return out
 
@@ -492,6 +545,8 @@ def gen_exhaustive(tier, seed):
                 cfgs.append((SEPS[n % 4], bool((n // 4) % 2), kinds[(n // 8) % 3], False))
             for sep, pk, kind, dflt in cfgs:
                 items, shape = as_shape([(k, v)], kind, sep)
+                if shape == 'dict':
+                    shape = MAP_SHAPES[(n // 3) % len(MAP_SHAPES)]
                 out.append(mk(items, sep=sep, pk=pk, shape=shape, defaults=dflt))
     alpha = MEDIUM if thorough else SMALL
     for k1, v1, k2, v2 in itertools.product(alpha, repeat=4):
@@ -501,8 +556,12 @@ def gen_exhaustive(tier, seed):
             cfgs.append((SEPS[(n + 1) % 4], not bool((n // 4) % 2), kinds[(n // 8 + 1) % 3]))
         for sep, pk, kind in cfgs:
             items, shape = as_shape([(k1, v1), (k2, v2)], kind, sep)
-            if shape == 'dict' and k1 == k2:
-                shape = 'itemsobj'
+            if shape == 'dict':
+                shape = MAP_SHAPES[(n // 3) % len(MAP_SHAPES)]
+                if k1 == k2 and shape in ('dict', 'proxy', 'view'):
+                    shape = 'itemsobj'
+            elif kind == 'join' and n % 5 == 0:
+                shape = 'keys'
             out.append(mk(items, sep=sep, pk=pk, shape=shape))
     return out
 
@@ -543,7 +602,7 @@ def gen_random(tier, seed):
                     return r_(rnd.choice(RAW_NAMES)) if rnd.random() < 0.35 else s_(rand_text(rnd, sep))
                 items.append(P(o(), o()))
         allp = all(i[0] == 'P' for i in items)
-        shape = rnd.choice(['list', 'tuple', 'gen', 'dict', 'proxy', 'itemsobj'] if allp else ['list', 'tuple', 'gen'])
+        shape = rnd.choice(['list', 'tuple', 'gen'] + MAP_SHAPES if allp else ['list', 'tuple', 'gen', 'keys'])
         out.append(mk(items, sep=sep, pk=pk, parser=parser, shape=shape, defaults=rnd.random() < 0.3,
                       pairlist=rnd.random() < 0.3))
     return out
@@ -580,7 +639,7 @@ def shrink_candidates(case):
 
 def distribution(cases, obs):
     d = dict(items=0, string_items=0, pair_items=0, raw_objects=0, default_parser=0, custom_parser=0,
-             parse_keys_on=0, shape_mapping=0, shape_pairs=0, ok=0, err_notkv=0, err_unhashable=0, err_other=0,
+             parse_keys_on=0, shape_mapping=0, shape_view=0, shape_items_overridden=0, shape_pairs=0, ok=0, err_notkv=0, err_unhashable=0, err_other=0,
              oracle_rejected=0, oracle_accepted=0, sep_len2=0, value_has_sep=0, custom_calls=0, len_hist={})
     for c, o in zip(cases, obs):
         n = len(c['items'])
@@ -595,7 +654,9 @@ def distribution(cases, obs):
                 d['raw_objects'] += (it[1][0] == 'r') + (it[2][0] == 'r')
         d['custom_parser' if c['parser'] else 'default_parser'] += 1
         d['parse_keys_on'] += bool(c['pk'])
-        d['shape_mapping'] += c['shape'] in ('dict', 'proxy', 'itemsobj')
+        d['shape_mapping'] += c['shape'] in ('dict', 'proxy', 'itemsobj', 'mapsub', 'dictsub')
+        d['shape_view'] += c['shape'] in ('view', 'keys')
+        d['shape_items_overridden'] += c['shape'] in ('mapsub', 'dictsub')
         d['shape_pairs'] += c['shape'] in ('list', 'tuple', 'gen') and any(i[0] == 'P' for i in c['items'])
         d['sep_len2'] += len(c['sep']) == 2
         if isinstance(o, dict) and 'res' in o:
@@ -608,18 +669,27 @@ def distribution(cases, obs):
 
 
 LEVEL_TEXT = ('parse_to_dict is modelled step for step (try_parse / parse_tuple / parse_pair / lazy dict construction) '
-              'with the parser as an oracle (coq/theories/Parse.v); props/C19.v proves for ALL item lists, separators, '
-              'oracles and parse_keys: the result is the dictionary of the parsed pairs or the error of the first bad '
-              'item; strings are split at the first occurrence of the separator only (complete characterisation of '
-              'split_once); the three input shapes agree whenever the joined strings split back at the intended place; '
-              'non-strings are untouched and string content matters only through the oracle and the split; the '
-              'dictionary keeps first keys in order and last values.  The source facts (default parser is '
-              'ast.literal_eval, split(sep, 1), bare except, isinstance guards, parse_keys branch, .items()) are '
-              're-extracted from the AST on every run and must equal the modelled shape (a theorem).  Tied to /repo by '
-              'running the real function on a fragment grammar with a tripwire object in scope and comparing result, '
-              'error and parser call log with the model inside Coq.')
+              'with the parser as an oracle (coq/theories/Parse.v); props/C19.v proves (15 theorems) for ALL item lists, '
+              'separators, oracles and parse_keys: the result is the dictionary of the parsed pairs or the error of the '
+              'first bad item (parse_model_spec, pair_equations); strings are split at the first occurrence of the '
+              'separator only (split_first_only, split_none: complete characterisation); the three input shapes agree '
+              'whenever the joined strings split back at the intended place (shapes_agree, shapes_agree_char); '
+              'non-strings are untouched and string content matters only through the oracle and the split '
+              '(only_parse_touches_strings, no_literal_pure_repairing); the dictionary keeps first keys in order and '
+              'last values (dict_last_value_wins, dict_first_key_kept).  The trace monitor is proved complete w.r.t. the '
+              'model (monitor_accepts_model) and sound AND complete w.r.t. a model-free relational statement about the '
+              'observation alone — first-occurrence cut, literal replacement by the oracle table, keys iff parse_keys, '
+              'insertion-built dictionary, first failing item decides, parser call log, tripwire silent — '
+              '(monitor_sound, monitor_sound_converse, statement_relations_are_the_model).  The source facts (default '
+              'parser is ast.literal_eval, split(sep, 1), bare except, isinstance guards, parse_keys branch, .items(), '
+              'dict(map(parse_pair, items)) or its explicit-loop spelling) are re-extracted from the AST on every run '
+              'and must equal the modelled shape (source_shape_as_modelled).  Tied to /repo by running the real '
+              'function on a fragment grammar (lists, tuples, generators, dicts, dict views, mapping proxies, Mapping / '
+              'dict subclasses with overridden .items()) with a tripwire object in scope and comparing result, error '
+              'and parser call log with the model inside Coq.')
 LEVEL_NOTE = ('trusted: Coq kernel + vm_compute; no axioms; ast.literal_eval is an oracle (its safety is CPython\'s); '
               'str.split/dict/==/hash are modelled primitives validated only by the correspondence; '
               'harness/props/C19.py, harness/c19_translate.py, coq/theories/Case_C19.v')
-TECHNIQUE = ('Coq proof (list induction; oracle as Section variable) + fail-closed ast translator for the syntactic '
-             'facts + differential correspondence evaluated by vm_compute')
+TECHNIQUE = ('Coq proof (list induction; oracle as Section variable; monitor soundness/completeness against a '
+             'relational statement) + fail-closed ast translator for the syntactic facts + differential '
+             'correspondence evaluated by vm_compute')
